@@ -949,7 +949,7 @@ def expand(spec, seed):
 def shrink_for_replay(case, tr, finding):
     """The replay case: the same run cut after the failing byte, with the receiver schedule made explicit."""
     k = finding.get('index', len(case['data']))
-    keep = min(len(case['data']), k + 3)
+    keep = len(case['data']) if case.get('tx') == 'msggen' else min(len(case['data']), k + 3)    # the message is a parameter, not traffic
     c = dict(case)
     c['data'] = case['data'][:keep]
     c['gaps'] = case['gaps'][:keep]
